@@ -200,6 +200,7 @@ def run_universe(ctx: Ctx, u: Universe, oracle: OracleFn,
                  routes_fn: Callable[[TypeCase, Dict[str, Any]], Sequence[str]],
                  nshards: int = 64) -> Tally:
     _STATE.update(u=u, oracle=oracle, routes=routes_fn, seed=ctx.seed)
+    limit_memory()  # parent too: witnesses are replayed here and must behave as in the workers
     tallies = pmap_shards(_shard, nshards)
     t = merge_tallies(tallies)
     for vj in t.violations:
@@ -208,6 +209,7 @@ def run_universe(ctx: Ctx, u: Universe, oracle: OracleFn,
 
 
 def replay_case(oracle: OracleFn, case: dict, get_universe) -> List[Violation]:
+    limit_memory()
     u = get_universe(case["universe"])
     tc = next(t for t in u.types if t.msg.name == case["type"])
     aval = av.from_jsonable(case["aval"])
